@@ -19,7 +19,8 @@ from __future__ import annotations
 from typing import TYPE_CHECKING
 
 from numpy import delete
-from numpy import insert
+from numpy import empty
+from numpy import ones
 
 from gemseo.core.mdo_functions.mdo_function import MDOFunction
 
@@ -89,8 +90,7 @@ class RestrictedFunction(MDOFunction):
         Returns:
             The evaluation of the function at x_vect.
         """
-        x_full = insert(x_vect, self._restriction_indices, self.restriction_values)
-        return self._function.evaluate(x_full)
+        return self._function.evaluate(self.__complete(x_vect))
 
     def _jac_to_wrap(self, x_vect: RealArray) -> RealArray:
         """Wrap the provided Jacobian in order to be given to the optimizer.
@@ -101,6 +101,22 @@ class RestrictedFunction(MDOFunction):
         Returns:
             The evaluation of the Jacobian at x_vect.
         """
-        x_full = insert(x_vect, self._restriction_indices, self.restriction_values)
-        jac = self._function.jac(x_full)
+        jac = self._function.jac(self.__complete(x_vect))
         return delete(jac, self._restriction_indices, axis=-1)
+
+    def __complete(self, x_vect: RealArray) -> RealArray:
+        """Complete an input vector of the restriction with the restriction values.
+
+        Args:
+            x_vect: The values of the free inputs.
+
+        Returns:
+            The input vector of the original function,
+            with the restriction values at the restriction indices.
+        """
+        x_full = empty(x_vect.size + len(self._restriction_indices), dtype=x_vect.dtype)
+        is_free = ones(x_full.size, dtype=bool)
+        is_free[self._restriction_indices] = False
+        x_full[self._restriction_indices] = self.restriction_values
+        x_full[is_free] = x_vect
+        return x_full
